@@ -66,6 +66,18 @@ def classify_edge(F, B, bb, t, callee_body):
         roots, via = M.slice_info(B, a)
         node_roots = [r for r in roots if r[0] == "arg" and NODE_TY in B.local_ty(r[1])]
         up_roots = [r for r in roots if r[0] == "upvar"]
+        if up_roots and not node_roots and not (via & (set(RESTART) | set(DESCENT))):
+            # the node is one the closure captured: what it is in the function that made the closure
+            cap = _captured_in_parent(F, B, up_roots)
+            if cap is not None:
+                proots, pvia, PB = cap
+                via = via | pvia
+                node_roots = [r for r in proots if r[0] == "arg" and NODE_TY in PB.local_ty(r[1])]
+                roots = (roots - set(up_roots)) | proots
+                up_roots = [r for r in proots if r[0] == "upvar"]
+                if node_roots and not (via & (set(RESTART) | set(DESCENT))):
+                    kinds.append(("same", sorted(via - _NEUTRAL_VIA(via)) or None))
+                    continue
         if via & set(RESTART):
             kinds.append(("restart", sorted(via & set(RESTART))))
         elif via & set(DESCENT):
@@ -82,6 +94,30 @@ def classify_edge(F, B, bb, t, callee_body):
     order = ["restart", "unknown", "same", "descent"]
     kinds.sort(key=lambda k: order.index(k[0]))
     return kinds[0]
+
+
+def _captured_in_parent(F, B, up_roots):
+    """(roots, via, parent Body) of the values a closure captured, sliced in the function that creates the closure; None when
+    the creation site is not found"""
+    path = B.fact.get("path") or ""
+    if "::{closure#" not in path:
+        return None
+    pb = F.lib.body(path.rsplit("::{closure#", 1)[0])
+    if pb is None or not pb.get("mir"):
+        return None
+    PB = M.Body(pb)
+    roots, via = set(), set()
+    found = False
+    for i in sorted(PB.reach):
+        for st in PB.blocks[i]["stmts"]:
+            if st["k"] == "assign" and st["rv"]["k"] == "aggregate" and st["rv"].get("closure") == path:
+                for r in up_roots:
+                    if r[1] < len(st["rv"]["ops"]):
+                        rs, vs = M.slice_info(PB, st["rv"]["ops"][r[1]])
+                        roots |= rs
+                        via |= vs
+                        found = True
+    return (roots, via, PB) if found else None
 
 
 def _NEUTRAL_VIA(via):
